@@ -1382,6 +1382,8 @@ class Interp:
             if member is None:
                 if name == '__class__':
                     return obj.cls
+                if name == '__dict__' and obj.cls.name == 'Namespace':
+                    return obj.fields
                 if getattr(obj, 'partial', False):
                     # the contract's parameter domain describes only some fields of this object
                     raise Unsupported(f"field '{name}' of {obj.cls.name} is not described by the contract's domain", node)
@@ -1469,6 +1471,12 @@ class Interp:
                             Closure(st, None, c.module, f'{c.name}.{name}.setter', cls=c),
                             [obj, value], {})
                         return
+            if getattr(obj, 'closed', False) and name not in obj.fields:
+                # frame of a shared singleton: the contract lists every attribute the object may carry
+                vr = self.world.verifier
+                if vr is not None and vr.active is not None:
+                    vr.frame_breaches.append(f"attribute '{name}' written on the shared {obj.cls.name} object "
+                                             f"(line {getattr(node, 'lineno', '?')})")
             obj.fields[name] = value
             return
         from . import heap
